@@ -4,7 +4,7 @@
    Every theorem quantifies over ALL 2^24 flag vectors (the record has 24 booleans); the proofs
    are exhaustive case analyses driven by the conditions the chains test. *)
 From Coq Require Import Bool List String.
-From Verif Require Import Gen.Choice C17.Model C17.Proofs.
+From Verif Require Import Gen.Choice Gen.ChoicePre C17.Model C17.Proofs C17.ModelPre C17.ProofsPre.
 Import ListNotations.
 Open Scope bool_scope.
 
@@ -110,6 +110,60 @@ Theorem C17_checkExt_symmetric :
   enc_fn_checkExt = dec_fn_checkExt /\ enc_fnNoExt_checkExt = dec_fnNoExt_checkExt.
 Proof. exact checkExt_symmetric_lemma. Qed.
 Print Assumptions C17_checkExt_symmetric.
+
+(* ---- the step before the function lookup (Gen/ChoicePre.v: the kind switch of encodeValue and the
+   TryNil test / pointer loop of decodeValue, translated from the current source).  What leaves
+   there is coded without the custom mechanism of its type. ---- *)
+
+(* a value that is not nil is never written before the lookup, whatever its kind (an empty map, an
+   empty slice, a zero value ... all reach the function chosen for the type); funcs and invalid
+   values are not encodable *)
+Theorem C17_pre_nonnil_looks_up : forall k nz u8 w,
+  encodable k = true -> enc_pre k false nz u8 <> PreExit w.
+Proof. exact pre_nonnil_lemma. Qed.
+Print Assumptions C17_pre_nonnil_looks_up.
+
+(* ... and an item that is not nil never leaves the decoder before its lookup *)
+Theorem C17_pre_dec_nonnil_looks_up : forall k w, dec_pre false k <> PreExit w.
+Proof. exact dec_pre_nonnil_lemma. Qed.
+Print Assumptions C17_pre_dec_nonnil_looks_up.
+
+(* without NilCollectionToZeroLength, what leaves the encoder before the lookup is written as nil,
+   and on that item the decoder leaves before its lookup too: the hooks run on neither side *)
+Theorem C17_pre_nil_symmetric : forall k isNil u8 w,
+  enc_pre k isNil false u8 = PreExit w -> w = WNil /\ dec_pre (writes_nil w) k = PreExit WNil.
+Proof. exact pre_nil_lemma. Qed.
+Print Assumptions C17_pre_nil_symmetric.
+
+(* hooks observed at the top level (the correspondence cases): the same class on both sides *)
+Theorem C17_pre_hooks_symmetric : forall k isNil u8 eb db f,
+  hookclass_of (enc_mech_at PTop eb f) = hookclass_of (dec_mech_at PTop db f) ->
+  k <> KPtr ->
+  enc_hook_top k isNil false u8 eb f = dec_hook_top k isNil false u8 db f.
+Proof. exact hook_top_sym_lemma. Qed.
+Print Assumptions C17_pre_hooks_symmetric.
+
+(* the full statement -- only nil is written before the lookup -- is refuted on the current tree
+   (finding F17-4): with NilCollectionToZeroLength a nil map / slice / chan is written as an EMPTY
+   collection there, also for a custom-coded type, and the decoder looks the function up for that
+   item: the decode hook runs on something the encode hook never wrote *)
+Definition C17_pre_full_statement : Prop :=
+  forall k isNil nz u8 w, enc_pre k isNil nz u8 = PreExit w -> w = WNil.
+
+Theorem C17_pre_refuted :
+  exists k u8 w, enc_pre k true true u8 = PreExit w /\ w <> WNil /\ dec_pre (writes_nil w) k = PreLookup.
+Proof. exact pre_refuted_lemma. Qed.
+Print Assumptions C17_pre_refuted.
+
+Theorem C17_pre_full_statement_refuted : ~ C17_pre_full_statement.
+Proof. exact pre_not_full_lemma. Qed.
+Print Assumptions C17_pre_full_statement_refuted.
+
+Example C17_pre_nonvacuous :
+  enc_pre KMap true false false = PreExit WNil /\ enc_pre KMap false false false = PreLookup /\
+  enc_pre KSlice true true true = PreExit WNilBytes /\ enc_pre KPtr false false false = PreDeref /\
+  dec_pre true KMap = PreExit WNil /\ dec_pre false KPtr = PreDeref.
+Proof. repeat apply conj; reflexivity. Qed.
 
 (* ---- non-vacuity ---- *)
 (* a pointer-receiver BinaryMarshaler pair under a binary handle; the same type under json *)
